@@ -751,6 +751,137 @@ def run():
             ck.disagreement("dialect %s, %s statement: the literals changed the statement's token structure" % (d, name),
                             {"kind": "hook-stmt-tokens", "dialect": d, "skeleton": name, "value": "".join(svals), "values": svals, "src": src, "sql": sql, "tokens": toks[:30], "expected": want[:30]}, cl_string)
 
+    # ------------------------------------------------------------ 8. embedded data: std.from_text (json, both layouts; csv).  Every cell of the document
+    #      must reach the database with its value: (a) the literal translate_literal receives for the cell (hook) is
+    #      Model/FromText.v map_json_primitive of the JSON value; (b) executed on SQLite, the cell has the value of the document
+    import csv as _csv, io as _io
+    strs = [v for v in vals_pool if "\x00" not in v]
+
+    def jcell():
+        k = ck.rng.randrange(10)
+        if k < 4:
+            return ck.rng.choice(strs)
+        if k < 6:
+            return ck.rng.choice([0, 1, -1, 42, 2**31, 2**53 + 1, 2**63 - 1, 2**63, 2**64 - 1, 2**64, -2**63, -2**63 - 1, 10**25, ck.rng.randrange(-10**6, 10**6)])
+        if k == 6:
+            return ck.rng.choice([1.5, 0.1, 1e22, 5e-324, 1.7976931348623157e308, -0.0, 2.5e-7, 1e16, -123.456, 0.30000000000000004])
+        if k == 7:
+            return ck.rng.choice([True, False])
+        if k == 8:
+            return None
+        return ck.rng.choice([[1, 2], {"x": 1}, []])
+    ft = []          # (format, prql source, columns, rows of python values, document text)
+    for _ in range(ck.n(60, 600)):
+        nc, nr = ck.rng.randrange(1, 4), ck.rng.randrange(1, 4)
+        cols = ["c%d" % i for i in range(nc)]
+        rows = [[jcell() for _ in cols] for _ in range(nr)]
+        if ck.rng.random() < 0.5:
+            doc = json.dumps([dict(zip(cols, r)) for r in rows], ensure_ascii=ck.rng.random() < 0.5)
+        else:
+            doc = json.dumps({"columns": cols, "data": rows}, ensure_ascii=ck.rng.random() < 0.5)
+        ft.append(("json", 'from_text format:json "%s"' % sp.esc_for('"', doc, ck.rng, 1), cols, rows, doc))
+    for _ in range(ck.n(40, 400)):
+        nc, nr = ck.rng.randrange(1, 4), ck.rng.randrange(1, 4)
+        cols = ["c%d" % i for i in range(nc)]
+        rows = [[ck.rng.choice(strs) for _ in cols] for _ in range(nr)]
+        if any(all(c == "" for c in r) and nc == 1 for r in rows):
+            continue             # a lone empty cell is an empty line, which every CSV reader skips
+        buf = _io.StringIO()
+        w = _csv.writer(buf, lineterminator="\n", quoting=ck.rng.choice([_csv.QUOTE_MINIMAL, _csv.QUOTE_ALL]))
+        w.writerow(cols); w.writerows(rows)
+        doc = buf.getvalue()[:-1]
+        ft.append(("csv", 'from_text format:csv "%s"' % sp.esc_for('"', doc, ck.rng, 1), cols, rows, doc))
+    fans = harness("log", [{"src": f[1], "target": "sql.sqlite", "want": [], "msg_prefix": "verif:literal"} for f in ft])
+    fex = harness("exec", [{"setup": [], "sql": a.get("ok", "SELECT 1")} for a in fans])
+
+    def cl_ft(case):
+        if case.get("format") == "json" and case.get("cell_class") in ("u64", "container"):
+            return "C08-N2-json-cell-becomes-null"
+        if case.get("format") == "csv" and case.get("doc") is not None and case["doc"] != case["doc"].strip():
+            return "C08-N3-csv-text-trimmed"
+        return None
+
+    def jterm(v):
+        if v is None:
+            return "JNull"
+        if isinstance(v, bool):
+            return "(JBool %s)" % ("true" if v else "false")
+        if isinstance(v, int):
+            return "(JInt (%d)%%Z)" % v
+        if isinstance(v, float):
+            return "JReal"
+        if isinstance(v, str):
+            return "(JString %s)" % coq_codes(v)
+        return "JArray" if isinstance(v, list) else "JObject"
+    jcells = sorted({jterm(c) for f in ft if f[0] == "json" for r in f[3] for c in r})
+    jmodel = {}
+    if model_ok and jcells:
+        try:
+            vals = coq_eval(HEADER.replace("Model.Literal.", "Model.Literal Model.FromText."),
+                            ["map (fun v => rlit_view (map_json_primitive v)) [%s]" % "; ".join(jcells[i:i + 60]) for i in range(0, len(jcells), 60)])
+            jmodel = dict(zip(jcells, [x for v in vals for x in v]))
+        except RuntimeError as ex:
+            ck.coverage["model_eval_error_fromtext"] = str(ex)[-600:]
+
+    def lit_view_py(lit):
+        if lit == "Null":
+            return (0, "", 0)
+        (tag, v), = lit.items()
+        return {"Integer": lambda: (1, "", v), "Float": lambda: (2, "", 0), "Boolean": lambda: (3, "", int(v)), "String": lambda: (4, v, 0)}[tag]()
+    for (fmt, src, cols, rows, doc), a, r in zip(ft, fans, fex):
+        ck.count("from-text", src, nontrivial=("'" in doc or "\\" in doc))
+        ck.stat("from-text", fmt)
+        case = {"kind": "from-text", "format": fmt, "src": src, "doc": doc}
+        if "ok" not in a:
+            ck.disagreement("from_text document does not compile: %s" % (a.get("err", [{}])[0].get("reason") if a.get("err") else a), dict(case, compile={k_: v_ for k_, v_ in a.items() if k_ != "entries"}), cl_ft)
+            continue
+        ents = [json.loads(e["Message"][len("verif:literal "):]) for e in a.get("entries", []) if e.get("Message", "").startswith("verif:literal ")]
+        flat = [(ri, ci, c) for ri, r_ in enumerate(rows) for ci, c in enumerate(r_)]
+        # (a) the literal each cell becomes, against the model (json) / String of the cell (csv)
+        if len(ents) != len(flat):
+            ck.disagreement("from_text: %d cells in the document, %d literals reached translate_literal" % (len(flat), len(ents)), dict(case, sql=a["ok"]), cl_ft)
+        else:
+            for (ri, ci, c), e in zip(flat, ents):
+                got = lit_view_py(e["lit"])
+                if fmt == "csv":
+                    want = (4, c, 0)
+                elif jterm(c) in jmodel:
+                    tag_, payload_, (sg_, mag_) = jmodel[jterm(c)]
+                    want = (tag_, s_of(payload_), -mag_ if sg_ else mag_)
+                else:
+                    continue
+                if got != want:
+                    ck.disagreement("from_text %s cell %r became the literal %r; expected %r" % (fmt, c, e["lit"], want), dict(case, cell=repr(c), row=ri, col=ci), cl_ft)
+        # (b) executed
+        if "rows" not in r:
+            ck.disagreement("SQL of a from_text document does not run on SQLite: %s" % r, dict(case, sql=a["ok"]), cl_ft)
+            continue
+        if r["cols"] != cols or len(r["rows"]) != len(rows):
+            ck.disagreement("from_text: result has columns %s and %d rows, the document has %s and %d" % (r["cols"], len(r["rows"]), cols, len(rows)), dict(case, sql=a["ok"]), cl_ft)
+            continue
+        for ri, (rr, er) in enumerate(zip(r["rows"], rows)):
+            for ci, (g, c) in enumerate(zip(rr, er)):
+                cls = None
+                if fmt == "csv" or isinstance(c, str):
+                    ok = g == c
+                elif c is None:
+                    ok = g is None
+                elif isinstance(c, bool):
+                    ok = g == int(c) and not isinstance(g, dict)
+                elif isinstance(c, int):
+                    if -2**63 <= c < 2**63:
+                        ok = g == c and isinstance(g, int)
+                    else:
+                        cls = "u64" if 2**63 <= c < 2**64 else None
+                        ok = isinstance(g, dict) and g.get("f") not in (None, "inf", "NaN") and float(g["f"]) == float(c)
+                elif isinstance(c, float):
+                    ok = isinstance(g, dict) and "f" in g and float(g["f"]) == c
+                else:
+                    cls, ok = "container", False
+                ck.stat("from-text", "cell:" + type(c).__name__)
+                if not ok:
+                    ck.disagreement("from_text %s cell %r (row %d, column %s) reads %r on SQLite" % (fmt, c, ri, cols[ci], g), dict(case, cell=repr(c), cell_class=cls, sql=a["ok"]), cl_ft)
+
     ck.proof_broken_violation(found_input=bool(ck.violations))
     ck.assumptions += ["NUL characters are excluded from executed strings (SQLite's API ends the statement text at NUL)",
                        "float spellings in the end-to-end stream have at most 19 significant digits (exact-in-binary, 16-17 digit, halfway and subnormal cases included)",
